@@ -138,11 +138,16 @@ def finish(mod, prop, tier, seed, recs, statuses, notes, t_start, replay, quiet)
     samples = []
     viols = []
     kf_hits = {}
+    total = 0
     for r in recs:
-        by_v[r["v"]] = by_v.get(r["v"], 0) + 1
+        n = int(r.get("n", 1))
+        total += n
+        by_v[r["v"]] = by_v.get(r["v"], 0) + n
         key = "%s/%s" % (r["unit"], r["build"])
         pu = per_unit.setdefault(key, {})
-        pu[r["v"]] = pu.get(r["v"], 0) + 1
+        pu[r["v"]] = pu.get(r["v"], 0) + n
+        for sg in r.get("sigs") or []:
+            sigs.add(json.dumps(sg, sort_keys=True, default=str))
         for k, v in (r.get("cnt") or {}).items():
             cnt[k] = cnt.get(k, 0) + v
         for k, v in (r.get("res") or {}).items():
@@ -152,7 +157,7 @@ def finish(mod, prop, tier, seed, recs, statuses, notes, t_start, replay, quiet)
             sigs.add(json.dumps(r["sig"], sort_keys=True, default=str))
         if r["v"] in (common.OOD, common.INC):
             w = "%s: %s" % (r["v"], (r.get("why") or "?")[:90])
-            why[w] = why.get(w, 0) + 1
+            why[w] = why.get(w, 0) + n
         if r.get("sample") is not None and len(samples) < 4 and r["v"] == common.HELD and r.get("nt"):
             samples.append({"unit": r["unit"], "build": r["build"], "idx": r["idx"], "case": r["sample"]})
         if r["v"] == common.VIOL:
@@ -162,7 +167,6 @@ def finish(mod, prop, tier, seed, recs, statuses, notes, t_start, replay, quiet)
             else:
                 viols.append(r)
     decided = by_v.get(common.HELD, 0) + by_v.get(common.VIOL, 0)
-    total = len(recs)
 
     # coverage floor -> inconclusive
     inconc = []
